@@ -231,7 +231,7 @@ func TestVerifWireIngest(t *testing.T) {
 		}
 		deliver("", raw)
 		if r.wantMut(row) {
-			for _, m := range vwMutations(raw, r.rng, r.maxTrunc, r.nflip) {
+			for _, m := range r.muts(row, raw) {
 				deliver(fmt.Sprintf("%s@%d", m.Kind, m.Pos), m.Raw)
 			}
 		}
@@ -408,6 +408,7 @@ func TestVerifWireWrap(t *testing.T) {
 	s := vwNewStation(t)
 	w := &vwWrapWorld{s: s, s2: vwNewStation(t), regs: map[string]*DecoyRegistration{}, rng: mrand.New(mrand.NewSource(vSeed()*31 + 5))}
 	empty := vwNewStation(t) // a manager without registrations
+	acceptedBy := map[string]int{}
 	wts := map[string]WrappingTransport{"min": min.Transport{}, "prefix": s.pfx, "obfs4": obfs4.Transport{}}
 	r.each([]string{"station.wrap"}, func(row *vwRow) {
 		f := row.F
@@ -450,6 +451,8 @@ func TestVerifWireWrap(t *testing.T) {
 			dst = net.IP{192, 122, 190}
 		}
 		raw := w.flight(t, row)
+		// the genuine flights are this entry point's nominal inputs: complete truncation neighbourhood
+		row.Nominal = f["regs"] == "same" && f["dst"] == "match" && f["flight"] == "valid"
 		deliver := func(variant string, b []byte) {
 			r.mark(row.idx, variant)
 			res := vwGuard(func() (string, string) {
@@ -469,6 +472,9 @@ func TestVerifWireWrap(t *testing.T) {
 					if reg == nil || wrapped == nil {
 						return "accepted", "nil registration or connection without an error"
 					}
+					if variant == "" {
+						acceptedBy[tr]++
+					}
 					return "accepted", ""
 				case errors.Is(err, transports.ErrTryAgain):
 					return "ignored", "try again"
@@ -480,12 +486,12 @@ func TestVerifWireWrap(t *testing.T) {
 		}
 		deliver("", raw)
 		if r.wantMut(row) && len(raw) < 20000 {
-			for _, m := range vwMutations(raw, r.rng, r.maxTrunc, r.nflip) {
+			for _, m := range r.muts(row, raw) {
 				deliver(fmt.Sprintf("%s@%d", m.Kind, m.Pos), m.Raw)
 			}
 		}
 	})
-	r.finish(map[string]any{"driver": "station.wrap"})
+	r.finish(map[string]any{"driver": "station.wrap", "accepted_by_transport": acceptedBy})
 }
 
 // vwOneReg is a RegManager that knows exactly one registration (under its own identifier) for every phantom
